@@ -55,8 +55,21 @@ pub fn handshake(target: &Target, sni: &str, protos: &[String], timeout: Duratio
 	cfg.set_verify_hostname(false);
 	match target {
 		Target::Tcp(addr) => {
-			let sa: std::net::SocketAddr = addr.parse().map_err(|e| format!("{addr}: {e}"))?;
-			let s = TcpStream::connect_timeout(&sa, timeout).map_err(|e| format!("connect: {e}"))?;
+			// a host name is resolved the way any client would and every address is tried
+			use std::net::ToSocketAddrs;
+			let addrs: Vec<std::net::SocketAddr> = addr.to_socket_addrs().map_err(|e| format!("{addr}: {e}"))?.collect();
+			let mut last = format!("{addr}: no address");
+			let mut conn = None;
+			for sa in addrs {
+				match TcpStream::connect_timeout(&sa, timeout) {
+					Ok(s) => {
+						conn = Some(s);
+						break;
+					}
+					Err(e) => last = format!("connect {sa}: {e}"),
+				}
+			}
+			let s = conn.ok_or(last)?;
 			let _ = s.set_read_timeout(Some(timeout));
 			let _ = s.set_write_timeout(Some(timeout));
 			finish(cfg.connect(sni, s))
@@ -72,7 +85,10 @@ pub fn handshake(target: &Target, sni: &str, protos: &[String], timeout: Duratio
 
 pub fn can_connect(target: &Target) -> bool {
 	match target {
-		Target::Tcp(addr) => addr.parse().ok().and_then(|sa| TcpStream::connect_timeout(&sa, Duration::from_millis(300)).ok()).is_some(),
+		Target::Tcp(addr) => {
+			use std::net::ToSocketAddrs;
+			addr.to_socket_addrs().map(|mut it| it.any(|sa| TcpStream::connect_timeout(&sa, Duration::from_millis(300)).is_ok())).unwrap_or(false)
+		}
 		Target::Unix(path) => UnixStream::connect(path).is_ok(),
 	}
 }
